@@ -36,6 +36,7 @@ RULE_DOC = {
     'R12': 'tail expression `E.iter().any(|v| C)` -> `for i in 0..E.len() { let v = &E[i]; if C { return true } } false`',
     'R13': '`for x in &mut E {` -> `for i in 0..E.len() { let x = &mut E[i];` (std: iter_mut visits the elements in index order)',
     'R17': '`let v: Vec<T> = E.iter().map(|&x| F).collect();` -> `let mut v = Vec::new(); for i in 0..E.len() { let x = E[i]; v.push(F); }`',
+    'R19': 'tail `E.into_iter().map(f).collect()` (f a function path) -> `let src = E; let mut out = Vec::new(); for i in 0..src.len() { out.push(f(src[i])); } out`',
     'R18': 'tail `(0..n).map(|i| F).collect()` -> `let mut out = Vec::new(); for i in 0..n { out.push(F); } out`',
     'R16': '`let m = E.iter().copied().max().unwrap_or(d);` -> `let mut o = None; for i in 0..E.len() { o = opt_max(o, E[i]) }; let m = o.unwrap_or(d);` (std: the maximum, None when empty; opt_max is a verified helper)',
     'R15': '`let v: Vec<T> = E.windows(2).map(|w| F).collect();` -> `let mut v = Vec::new(); for i in 1..E.len() { let w = &E[i - 1..i + 1]; v.push(F); }` (std: the adjacent pairs in order; F verbatim)',
@@ -410,6 +411,29 @@ class Piece:
                % (elem_ty, ind, fm.group(1), mm.group(1), ind, fm.group(2).strip(), ind, ind))
         self.text = text[:ts] + new + text[end:]
         self._fired('R18', '(0..n).map(..).collect() tail -> loop + push')
+        return self
+
+    def R19(self, elem_ty):
+        """tail `E.into_iter().map(F).collect()` (F a function path) -> `let src = E; let mut out = Vec::new(); for i in 0..src.len() { out.push(F(src[i])); } out`"""
+        text = self.text
+        code = scan(text)
+        m0 = re.search(r'\bfn\s+\w+', text)
+        bo, ch = body_open(text, code, m0.end())
+        bc = match_close(text, code, bo)
+        ts = tail_start(text, code, bo, bc)
+        k = text.find('.into_iter()', ts)
+        if k < 0 or k > bc:
+            raise LostAnchor('rule R19 in %s: tail is not `E.into_iter().map(F).collect()`' % self.label)
+        recv = text[ts:k].strip()
+        calls, end = self._chain(text, code, k)
+        names = [c[0] for c in calls]
+        if names != ['into_iter', 'map', 'collect'] or not re.match(r'^[\w:]+$', calls[1][1].strip()) or text[end:bc].strip() != '':
+            raise LostAnchor('rule R19 in %s: chain is %s' % (self.label, names))
+        ind = re.match(r'[ \t]*', text[_line_start(text, ts):]).group(0)
+        new = ('let src__ = %s;\n%slet mut out__: Vec<%s> = Vec::new();\n%sfor i__ in 0..src__.len() {\n%s    out__.push(%s(src__[i__]));\n%s}\n%sout__'
+               % (recv, ind, elem_ty, ind, ind, calls[1][1].strip(), ind, ind))
+        self.text = text[:ts] + new + text[end:]
+        self._fired('R19', 'into_iter().map(f).collect() tail -> index loop + push')
         return self
 
     def R10(self, method, param_ty, annotate):
